@@ -124,9 +124,15 @@ ASMJIT_FAVOR_SIZE Error FuncArgsContext::init_work_data(const FuncFrame& frame, 
 
           if (dst_id == src_id) {
             // The best case, register is allocated where it is expected to be. However, we should
-            // not mark this as done if both registers are GP and sign or zero extension is required.
+            // not mark this as done if both registers are GP and sign or zero extension is required,
+            // or if both registers are VEC and a conversion between float and double is required.
             if (dst_group != RegGroup::kGp) {
-              var.mark_done();
+              TypeId dt = TypeUtils::scalar_of(dst.type_id());
+              TypeId st = TypeUtils::scalar_of(src.type_id());
+
+              if (dst_group != RegGroup::kVec || !TypeUtils::is_float(dt) || !TypeUtils::is_float(st) || dt == st) {
+                var.mark_done();
+              }
             }
             else {
               TypeId dt = dst.type_id();
